@@ -101,6 +101,7 @@ theorem segMatchValues_reach {rec : SegRec} {env : Env} (hrec : SegRecReach env 
     | num q => unfold segMatchValues; exact ih st
     | arr xs => unfold segMatchValues; exact ih st
     | obj kvs => unfold segMatchValues; exact ih st
+    | raw w => unfold segMatchValues; exact ih st
 
 theorem clauseMatch_reach {rec : SegRec} {env : Env} (hrec : SegRecReach env rec)
     (chain : List String) (c : Clause) (st : St) :
